@@ -7,7 +7,11 @@ def run(ctx):
                 "next O->H / H->O message delivered; proxy dropped with or without running the eventual queue; proxy sent "
                 "home / called through; connection lost) chosen at random among the enabled ones on two real Brokers with "
                 "message-granular delivery, 5 profiles (1, 2, 4 objects; discards; loss), plus corpus witnesses; a case is one "
-                "history; non-trivial = it contains a re-send of a reference while a release of it is unanswered")
+                "history; non-trivial = it contains a re-send of a reference while a release of it is unanswered; after connection loss "
+                "the histories go on sending / calling through the stale proxies (callRemote and callRemoteOnly with by-reference "
+                "arguments, also from notifyOnDisconnect handlers) and the dead Brokers' tables must stay empty; plus ALL "
+                "interleavings (depth 6 quick / 8 thorough) of re-send, delivery, release and answer around a decref in flight, and "
+                "a reconnection family on real Tubs (tables of the dead Broker pair after reconnection)")
     ctx.assumptions = [
         "CPython collects a proxy on the last `del` (+gc.collect()): DropProxy is an explicit action; modelled, not verified",
         "FIFO byte streams both ways, one queue item per top-level banana object (Broker.send is wrapped on the two instances "
@@ -19,6 +23,8 @@ def run(ctx):
     from harness import refs_impl as R
     before = len(ctx.failures)
     results = R.check_refs(ctx, "C09", "resend-races-release")
+    from harness import c08_impl
+    c08_impl.reconnect(ctx, "C09")
     model_ok = ok
     if not ok:
         model_ok, _ = ctx.coq_build(["lib/Refs.vo"])
